@@ -104,6 +104,7 @@ type e1World struct {
 	ctx    context.Context
 	byHash bool
 	evil   *ipfslog.IPFSLog
+	io     iface.IO // non-nil: the link-sealing codec all logs of the scenario share
 	// streaming iterations: the consumer takes the entries one by one and works on the logs in between
 	streams []*stream
 }
@@ -364,8 +365,16 @@ func genE1(r *Run, prop string) (*e1World, *e1Config) {
 		// entries and manifests at overlapping times, which is what concurrent block writes have to survive
 		sameWriter = true
 	}
+	// in a third of the scenarios all logs share one link-sealing codec object (its pre-signature step then runs on
+	// the verification goroutines of every merge, and inside every append)
+	var sharedIO iface.IO
+	if prop != "C17" && r.Choose("sealed-links", 3) == 0 {
+		sharedIO = linkIO(linkKeyBytes(1))
+		r.Probe("shared-link-sealing-codec")
+	}
+	w.io = sharedIO
 	for i := 0; i < cfg.nlogs; i++ {
-		o := &ipfslog.LogOptions{ID: "L", AccessController: e1Controller{}, Concurrency: uint([]int{0, 0, 1, 2}[r.Choose("log-concurrency", 4)])}
+		o := &ipfslog.LogOptions{ID: "L", AccessController: e1Controller{}, Concurrency: uint([]int{0, 0, 1, 2}[r.Choose("log-concurrency", 4)]), IO: sharedIO}
 		if w.byHash {
 			o.SortFn = sortByHash
 		}
@@ -398,7 +407,7 @@ func genE1(r *Run, prop string) (*e1World, *e1Config) {
 	}
 	if cfg.shared && r.Choose("derived-log", 3) == 0 {
 		// a log built from the shared log's entries and heads, used next to it (appended to, merged from)
-		o := &ipfslog.LogOptions{ID: "L", AccessController: e1Controller{}, Entries: w.logs[0].GetEntries(), Heads: w.logs[0].Heads().Slice()}
+		o := &ipfslog.LogOptions{ID: "L", AccessController: e1Controller{}, Entries: w.logs[0].GetEntries(), Heads: w.logs[0].Heads().Slice(), IO: sharedIO}
 		if w.byHash {
 			o.SortFn = sortByHash
 		}
@@ -524,7 +533,7 @@ func genE1(r *Run, prop string) (*e1World, *e1Config) {
 		}
 		cfg.tasks = append(cfg.tasks, ops)
 	}
-	if (prop == "C13" || prop == "C14") && r.Choose("with-stream", 3) == 0 {
+	if (prop == "C13" || prop == "C14" || prop == "C15" || prop == "C16") && r.Choose("with-stream", 3) == 0 {
 		// one more pair of tasks: an iteration that streams its result through a channel too small for it, and
 		// the consumer of that stream, which works on the logs between two entries it takes (acknowledges what
 		// it received, looks entries up, merges). Together with the writers among the other tasks.
@@ -1232,7 +1241,7 @@ var _ = entry.NewOrderedMap
 // so that Join's verification workers report more than one failure concurrently.
 func (w *e1World) makeEvil(r *Run) {
 	ws := E1Writers()
-	o := &ipfslog.LogOptions{ID: "L"}
+	o := &ipfslog.LogOptions{ID: "L", IO: w.io}
 	scratch, err := ipfslog.NewLog(w.st, ws[3].ID, o)
 	if err != nil {
 		r.Harness("NewLog: %v", err)
@@ -1256,7 +1265,7 @@ func (w *e1World) makeEvil(r *Run) {
 		om.Set(e.GetHash().String(), use)
 		last = use
 	}
-	w.evil, err = ipfslog.NewLog(w.st, ws[3].ID, &ipfslog.LogOptions{ID: "L", Entries: om, Heads: []iface.IPFSLogEntry{last}})
+	w.evil, err = ipfslog.NewLog(w.st, ws[3].ID, &ipfslog.LogOptions{ID: "L", Entries: om, Heads: []iface.IPFSLogEntry{last}, IO: w.io})
 	if err != nil {
 		r.Harness("NewLog: %v", err)
 	}
